@@ -1008,10 +1008,170 @@ def regress_inputs():
     return out
 
 
+# ------------------------------------------------------------------ single system-call failures (safety clauses only)
+
+FAULT_SESSIONS = [
+    ["STAT", "DELE 2", "RETR 1", "TOP 3 1", "LIST", "UIDL", "QUIT"],
+    ["DELE 1", "DELE 3", "DELE 4", "QUIT"],
+    ["RETR 2", "DELE 2", "RSET", "DELE 4", "RETR 3", "QUIT"],
+    ["DELE 2", "RETR 4"],                      # connection lost without QUIT: nothing may be removed
+]
+
+
+def fault_population():
+    msgs = []
+    for i, (d, c) in enumerate((("new", b"Subject: one\n\nbody 1\n.dot line\n"), ("cur", b"Subject: two\n\n" + b"x" * 3000 + b"\n"),
+                                ("new", b"Subject: three\n\nl1\nl2\nl3\n"), ("cur", b"no header separator\n"))):
+        msgs.append({"dir": d, "name": "17000000%02d.%d.host" % (i, i), "info": ":2,S" if d == "cur" else "", "age": 4000 - 100 * i, "content": vlib.jsonable(c)})
+    return {"msgs": msgs, "tmp": []}
+
+
+def run_fault_session(r, cmds, fault, stats):
+    """One pop3d session with at most one failing system call. Judged by the clauses that hold whatever fails: only messages marked
+    with DELE in a session that reached QUIT may disappear; nothing else in the maildir changes except new/x -> cur/x:2,; a RETR answered
+    +OK and terminated is the exact wire form of that message. Returns (violation | None, trace events)."""
+    sc = fault_population()
+    build_maildir(r.md, sc)
+    before = snapshot(r.md)
+    extra = {"VSHIM_TRACE": os.path.join(r.h.dir, "trace-f")}
+    if os.path.exists(extra["VSHIM_TRACE"]):
+        os.unlink(extra["VSHIM_TRACE"])
+    if fault:
+        extra["VSHIM_FAULT"] = "qmail-pop3d:%s:%d:%s" % (fault["cls"], fault["k"], fault["err"])
+    env = r.env(4242, **extra)
+    data = b"".join(c.encode() + b"\r\n" for c in cmds)
+    rc, out, err = sandbox.run_proc([r.pop3d, r.md], env, stdin=data, timeout=20, cwd=r.h.dir)
+    ev = sandbox.parse_trace(extra["VSHIM_TRACE"]) if os.path.exists(extra["VSHIM_TRACE"]) else []
+    if rc is None or not ev:
+        stats.inconclusive += 1
+        return None, ev
+    after = snapshot(r.md)
+    vis, _ = visible_sorted(sc)
+    # a failing stat()/opendir()/readdir() makes the server overlook a message, so its numbering differs from the reference numbering:
+    # then only counts can be judged (no more messages gone than DELEs sent), not identities
+    renumber = bool(fault) and fault["cls"] in ("stat", "fstat", "opendir", "readdir")
+    marked = set()
+    quit_ok = False
+    # replies in order (multi-line ones are framed by CRLF.CRLF after +OK)
+    pos = out.find(b"\n") + 1 if out.startswith(b"+OK") else 0
+    dead = not out.startswith(b"+OK")
+    pending = set()
+    for c in cmds:
+        if dead or pos >= len(out):
+            break
+        verb, _, arg = c.partition(" ")
+        nl = out.find(b"\n", pos)
+        if nl < 0:
+            break
+        status = out[pos:nl + 1]
+        multi = verb in ("RETR", "TOP") or (verb in ("LIST", "UIDL") and not arg)
+        if status.startswith(b"+OK") and multi:
+            end = out.find(b"\r\n.\r\n", nl - 1)
+            if end < 0:
+                break                   # reply cut short: the server died inside it
+            body = out[nl + 1:end + 5]
+            pos = end + 5
+            if verb == "RETR":
+                want = wire(vlib.unjson(sc["msgs"][vis[int(arg) - 1]]["content"]))
+                if renumber and body in [wire(vlib.unjson(m["content"])) for m in sc["msgs"]]:
+                    pass                # a message whose stat()/directory read failed is not listed: the numbers shift, the texts stay exact
+                elif body != want:
+                    return "RETR %s answered +OK and terminated, but the text is not the stored message (%d bytes, expected %d)" % (arg, len(body), len(want)), ev
+        else:
+            pos = nl + 1
+        if verb == "DELE" and status.startswith(b"+OK"):
+            pending.add(vis[int(arg) - 1])
+        if verb == "RSET" and status.startswith(b"+OK"):
+            pending.clear()
+        if verb == "QUIT" and status.startswith(b"+OK"):
+            quit_ok = True
+            marked = set(pending)
+    stats.case(scenario={"cmds": cmds, "fault": fault}, nontrivial=bool(fault) and any(e["a"] and e["a"][-1] == "FAULT" for e in ev),
+               classes=["fault_session"] + (["fault_session_%s" % fault["cls"]] if fault else ["fault_session_golden"]))
+    sent_marks = set()
+    for c in cmds:
+        verb, _, arg = c.partition(" ")
+        if verb == "DELE":
+            sent_marks.add(vis[int(arg) - 1])
+        elif verb == "RSET":
+            sent_marks.clear()
+    # file system: every message for which no DELE + QUIT was sent is still there (under new/ or cur/), byte for byte
+    names_after = {}
+    for k, v in after.items():
+        d, _, f = k.partition("/")
+        if d in ("new", "cur"):
+            names_after[f.split(":")[0]] = (k, v)
+    for i, m in enumerate(sc["msgs"]):
+        base = m["name"]
+        if base not in names_after and renumber:
+            gone = [x for x in sc["msgs"] if x["name"] not in names_after]
+            if "QUIT" in cmds and len(gone) <= len(sent_marks):
+                continue
+            return "%d messages are gone although only %d DELE%s sent" % (len(gone), len(sent_marks) if "QUIT" in cmds else 0, " + QUIT were" if "QUIT" in cmds else "s were sent and QUIT was not"), ev
+        if base not in names_after:
+            # the failing call may be the very write that carries a reply, so what the client SENT decides: a message may disappear only
+            # if DELE for it was sent (and no RSET after it) and QUIT was sent
+            if i in sent_marks and "QUIT" in cmds:
+                continue
+            why = "no DELE was sent for it" if i not in sent_marks else "QUIT was never sent"
+            return "message %d (%s) is gone although %s" % (i + 1, msg_rel(m), why), ev
+        k, v = names_after[base]
+        if v != vlib.unjson(m["content"]):
+            return "message %s changed its contents" % k, ev
+        if k != msg_rel(m) and not (m["dir"] == "new" and k == "cur/%s:2," % base):
+            return "message %s was renamed to %s (only new/x -> cur/x:2, is documented)" % (msg_rel(m), k), ev
+    extra_files = [k for k in after if k.partition("/")[2].split(":")[0] not in {m["name"] for m in sc["msgs"]}]
+    if extra_files:
+        return "files appeared in the maildir: %r" % extra_files[:4], ev
+    return None, ev
+
+
+def fault_worker(job):
+    tree, wid, plans = job
+    stats = vlib.Stats()
+    r = Runner(tree, "f%s" % wid)
+    for cmds, fault in plans:
+        v, _ = run_fault_session(r, cmds, fault, stats)
+        if v:
+            v2 = [run_fault_session(r, cmds, fault, vlib.Stats())[0] for _ in range(2)]
+            if all(v2):
+                stats.violations.append(("single failing system call (%s): %s" % (json.dumps(fault), v), {"part": "fault", "cmds": cmds, "fault": fault}))
+                break
+            stats.inconclusive += 1
+    return stats
+
+
+def fault_part(ctx, tree):
+    """golden run of each fixed session -> every call site of qmail-pop3d that can fail (open/read/stat/rename/unlink/opendir/readdir/write
+    to the client) x errno, one per run"""
+    r = Runner(tree, "fgold")
+    plans = []
+    for cmds in FAULT_SESSIONS:
+        v, ev = run_fault_session(r, cmds, None, ctx.stats)
+        if v:
+            ctx.stats.violations.append(("fault-free reference session: " + v, {"part": "fault", "cmds": cmds, "fault": None}))
+            return
+        seen = set()
+        for cls, k, e in sandbox.fault_sites(ev):
+            if cls in ("close", "lseek", "chdir", "pipe", "fork", "flock", "pwrite", "fsync", "ftruncate", "link", "mkdir", "utimes") or (cls, k) in seen:
+                continue
+            seen.add((cls, k))
+            for er in {"open": ["13", "23"], "read": ["5"], "write": ["5", "32"], "stat": ["5"], "fstat": ["5"], "rename": ["5", "13"], "unlink": ["5", "13"],
+                       "opendir": ["23"], "readdir": ["5"]}.get(cls, ["5"]):
+                plans.append((cmds, {"cls": cls, "k": k, "err": er}))
+    nw = vlib.NCPU
+    ctx.stats.merge(vlib.run_workers(fault_worker, [(tree, i, plans[i::nw]) for i in range(nw) if plans[i::nw]]))
+    ctx.notes["fault_sessions"] = {"sessions": len(FAULT_SESSIONS), "single_fault_runs": len(plans)}
+
+
 def run(ctx):
     sandbox.ensure_shim()
     private_tools()
     tree = vlib.Tree().make("qmail-pop3d", "qmail-popup")
+    if ctx.only is None or "fault" in ctx.only:
+        fault_part(ctx, tree)
+        if ctx.stats.violations or (ctx.only and ctx.only == {"fault"}):
+            return
     fixed = regress_inputs() + fixed_inputs()
     nw = vlib.NCPU
     per = int(os.environ.get("C19_N", ctx.n(2500, 40000)))
@@ -1030,5 +1190,8 @@ def replay(ctx, path):
     sc = json.load(open(path))
     sc = sc.get("scenario", sc)
     r = Runner(tree, "replay")
+    if isinstance(sc, dict) and sc.get("part") == "fault":
+        out = [run_fault_session(r, sc["cmds"], sc["fault"], ctx.stats)[0] for _ in range(3)]
+        return [out[0]] if all(out) else []
     v = r.run(sc, ctx.stats)
     return [v] if v else []
